@@ -18,6 +18,11 @@ use crate::{
     world::Component,
 };
 
+#[cfg(feature = "specs_verif")]
+mod verif;
+#[cfg(feature = "specs_verif")]
+pub use self::verif::VerifSlot;
+
 /// An index is basically the id of an `Entity`.
 pub type Index = u32;
 
